@@ -5,6 +5,7 @@ kind records, flow values and results are the JSON images of the TLA+ values:
   result  {"ok": True, "out": [values]} | {"ok": False, "exc": class name}
 A float is a limb list [{"i": index, "c": coefficient}] of value sum c * B**(i - UNIT), B = 2**15.
 """
+import collections
 import copy
 import decimal
 import json
@@ -57,6 +58,11 @@ def is_float_kind(kind):
 
 
 def label(kind):
+    lab = _label(kind)
+    return lab + "{%s}" % kind["opt"] if kind.get("opt") else lab
+
+
+def _label(kind):
     t = kind["t"]
     if t == "Count":
         return "Count[%s,start=%d]" % (kind["name"], kind["start"])
@@ -73,7 +79,7 @@ def label(kind):
     if t == "Vec":
         inner = label(kind["inners"][0]) + ",dim=%d" % len(kind["inners"]) if kind["form"] == "dim" else \
             "[" + ",".join(label(k) for k in kind["inners"]) + "]"
-        return "Vectorize[%s%s]" % (inner, ",construct" if kind["cons"] == "named" else "")
+        return "Vectorize[%s%s]" % (inner, {"named": ",construct", "add": ",construct=add"}.get(kind["cons"], ""))
     if t == "Store":
         return "StoreFilled[%s]" % ("group" if kind["grp"] else "one-by-one")
     if t == "GroupBy":
@@ -101,6 +107,17 @@ def fresh_kind(kind):
     return k
 
 
+# values that look like nothing, used as data of Count / StoreFilled / GroupBy ("odd" kinds): label -> object
+ODD = {0: None, -2: "", 3: [], 1: False, 2: 0.0, -1: ()}
+
+
+def odd_label(x):
+    for lab, obj in ODD.items():
+        if type(x) is type(obj) and x == obj:
+            return lab
+    return x
+
+
 def py_ctx(c):
     if c == [] or c is None:
         return {}
@@ -114,6 +131,10 @@ def py_data(kind, d):
     t = kind["t"]
     if is_float_kind(kind):
         return limbs_float(d)
+    if kind.get("opt") == "half":
+        return d / 2.0
+    if kind.get("opt") == "odd":
+        return copy.deepcopy(ODD[d])
     if t == "Vec":
         return tuple(py_value(k, x) for k, x in zip(kind["inners"], d))
     if t in ("Graph", "Hist2"):
@@ -136,7 +157,7 @@ def build(kind):
     if t == "Count":
         return lena.flow.Count(kind["name"], count=kind["start"])
     if t == "Sum":
-        return lena.math.Sum(kind["start"])
+        return lena.math.Sum(kind["start"] / 2.0 if kind.get("opt") == "half" else kind["start"])
     if t == "DSum":
         if kind.get("dstart"):
             start = limbs_value(kind["dstart"])
@@ -144,7 +165,7 @@ def build(kind):
         return lena.math.DSum()
     if t == "Mean":
         import lena.core
-        sum_seq = {"py": lambda: None, "DSum": lena.math.DSum, "Sum": lena.math.Sum,
+        sum_seq = {"py": lambda: None, "DSum": lena.math.DSum, "Sum": lena.math.Sum, "Count": lena.flow.Count,
                    "Sum2": lambda: lena.core.Split([lena.math.Sum(), lena.math.Sum()])}[kind["inner"]]()
         return lena.math.Mean(sum_seq=sum_seq, pass_on_empty=kind["poe"])
     if t == "VMC":
@@ -154,14 +175,18 @@ def build(kind):
         return lena.math.VarianceMeanCount(corrected=kind["corr"], pass_on_empty=kind["poe"])
     if t == "Vec":
         n = len(kind["inners"])
-        construct = vec_class(n) if kind["cons"] == "named" else None
+        import operator
+        import lena.core
+        construct = {"named": vec_class(n), "add": operator.add}.get(kind["cons"])
+        inner = (lambda k: lena.core.FillComputeSeq(build(k))) if kind.get("opt") == "wrap" else build
         if kind["form"] == "dim":
-            return lena.math.Vectorize(build(kind["inners"][0]), dim=n, construct=construct)
-        return lena.math.Vectorize([build(k) for k in kind["inners"]], construct=construct)
+            return lena.math.Vectorize(inner(kind["inners"][0]), dim=n, construct=construct)
+        return lena.math.Vectorize([inner(k) for k in kind["inners"]], construct=construct)
     if t == "Store":
         return lena.flow.StoreFilled(yield_as_a_group=kind["grp"])
     if t == "GroupBy":
-        return lena.flow.GroupBy() if kind["by"] == "all" else lena.flow.GroupBy(kind["by"])
+        gb = lena.flow.GroupBy() if kind["by"] == "all" else lena.flow.GroupBy(kind["by"])
+        return DeprecatedGroupBy(gb) if kind.get("opt") == "dep" else gb
     if t == "Hist":
         var, edges, init = kind["var"], list(kind["edges"]), copy.deepcopy(kind["init"])
         if var == "plain":
@@ -180,6 +205,28 @@ def build(kind):
             kw = {"points": [tuple(p) for p in kind["ipts"]], "context": py_ctx(kind["ictx"])}
         return lena.structures.Graph(scale=None if kind["scale"] == NONE else kind["scale"], sort=kind["sort"], **kw)
     raise ValueError(kind)
+
+
+class DeprecatedGroupBy(object):
+    """GroupBy driven through its deprecated aliases: update() for fill(), clear() for reset()."""
+
+    def __init__(self, gb):
+        self.gb = gb
+
+    def fill(self, value):
+        import warnings
+        with warnings.catch_warnings():
+            warnings.simplefilter("ignore")
+            self.gb.update(value)
+
+    def compute(self):
+        return self.gb.compute()
+
+    def reset(self):
+        import warnings
+        with warnings.catch_warnings():
+            warnings.simplefilter("ignore")
+            self.gb.clear()
 
 
 _VEC_CLASSES = {}
@@ -206,10 +253,10 @@ def enc_ctx(c):
 
 
 def enc_filled(v):
-    """A value that was filled (StoreFilled / GroupBy yield them back): ints only."""
+    """A value that was filled (StoreFilled / GroupBy yield them back): ints, or the "odd" objects."""
     if _has_context(v):
-        return {"d": v[0], "c": enc_ctx(v[1]), "h": True}
-    return {"d": v, "c": {}, "h": False}
+        return {"d": odd_label(v[0]), "c": enc_ctx(v[1]), "h": True}
+    return {"d": odd_label(v), "c": {}, "h": False}
 
 
 def snap(kind, item):
@@ -250,7 +297,10 @@ def run_history(kind, ops, el=None):
     computes (one per "c").  fill / reset raising is an Abort (they never raise by the documentation
     on the values used)."""
     if el is None:
-        el = build(kind)
+        try:
+            el = build(kind)
+        except Exception as exc:   # noqa
+            raise Abort("construction:raised:" + exc_name(exc), 0)
     obs = []
     for idx, o in enumerate(ops):
         if o["op"] == "f":
@@ -260,6 +310,16 @@ def run_history(kind, ops, el=None):
                 raise Abort("fill:raised:" + exc_name(exc), idx)
         elif o["op"] == "c":
             obs.append(observe(kind, el))
+        elif o["op"] == "rx":
+            # a reset() that is documented (by the test-suite) to raise: Mean over a sum_seq without reset
+            try:
+                el.reset()
+                raise Abort("reset:no-exception", idx)
+            except Abort:
+                raise
+            except Exception as exc:   # noqa
+                if exc_name(exc) != "LenaAttributeError":
+                    raise Abort("reset:wrong-exception:" + exc_name(exc), idx)
         else:
             try:
                 el.reset()
@@ -276,6 +336,9 @@ def close(a, b, scale=1.0):
 def data_mismatch(kind, exp, got):
     """None when the observed data is the rendering of the spec's exact data, else a short reason."""
     t = kind["t"]
+    half = kind.get("opt") == "half"
+    if t == "Sum" and half:
+        return None if (type(got) is float and got == exp / 2.0) else "data"
     if t in ("Count", "Sum"):
         return None if (type(got) is int and got == exp) else "data"
     if t == "DSum":
@@ -285,7 +348,7 @@ def data_mismatch(kind, exp, got):
     if t == "Mean" and not isinstance(exp, dict):      # further values of a multi-valued sum_seq
         return None if (type(got) is int and got == exp) else "data"
     if t == "Mean":
-        s = limbs_value(exp["s"]) if kind["inner"] == "DSum" else exp["s"]
+        s = limbs_value(exp["s"]) if kind["inner"] == "DSum" else (exp["s"] / 2.0 if half else exp["s"])
         want = float(s) / float(exp["n"])
         return None if (isinstance(got, float) and got == want) else "data"
     if t == "VMC":
@@ -295,6 +358,12 @@ def data_mismatch(kind, exp, got):
         n, s = exp["n"], exp["s"]
         if count != n:
             return "count"
+        if half:
+            if mean != (s / 2.0) / n:
+                return "mean"
+            want = float(Fraction(exp["vnum"], exp["vden"])) / 4.0
+            msq = (exp["vnum"] / float(n) + float(s) * s) / float(n) / n / 4.0
+            return None if (isinstance(var, float) and close(var, want, msq)) else "variance"
         if mean != s / float(n):
             return "mean"
         want = float(Fraction(exp["vnum"], exp["vden"]))
@@ -303,6 +372,8 @@ def data_mismatch(kind, exp, got):
         msq = (exp["vnum"] / float(n) + float(s) * s) / float(n) / n
         return None if close(var, want, msq) else "variance"
     if t == "Vec":
+        if kind["cons"] == "add" and not isinstance(exp, list):      # construct(*row) worked: one number
+            return None if (type(got) is int and got == exp) else "construct"
         if not isinstance(got, tuple):
             return "data-type"
         if (type(got) is vec_class(len(kind["inners"]))) != (kind["cons"] == "named") or \
@@ -327,6 +398,7 @@ def data_mismatch(kind, exp, got):
                 return "component-" + m
         return None
     if t == "Store" and not kind["grp"]:
+        got = odd_label(got) if kind.get("opt") == "odd" else got
         return None if (type(got) is int and got == exp) else "data"
     if t in ("Store", "GroupBy"):
         if not isinstance(got, list):
@@ -385,7 +457,8 @@ def result_mismatch(kind, exp, got):
     t = kind["t"]
     if t == "Count" and "count" in attrs and attrs["count"] != out[0]["d"]:
         return "attribute-count"
-    if t == "Sum" and "total" in attrs and attrs["total"] != out[0]["d"]:
+    if t == "Sum" and "total" in attrs and attrs["total"] != (out[0]["d"] / 2.0 if kind.get("opt") == "half"
+                                                              else out[0]["d"]):
         return "attribute-total"
     if t == "DSum" and "total" in attrs and Fraction(attrs["total"]) != limbs_value(out[0]["d"]):
         return "attribute-total"
@@ -477,7 +550,7 @@ def rand_kind(rnd):
     if t == "DSum":
         return {"t": "DSum", "dstart": rnd.choice([[], [], to_limbs(2.5), to_limbs(-7)])}
     if t == "Mean":
-        return {"t": "Mean", "inner": rnd.choice(["py", "py", "Sum", "Sum2"]), "poe": rnd.random() < 0.3}
+        return {"t": "Mean", "inner": rnd.choice(["py", "py", "Sum", "Sum2", "Count"]), "poe": rnd.random() < 0.3}
     if t == "MeanD":
         return {"t": "Mean", "inner": "DSum", "poe": rnd.random() < 0.3}
     if t == "VMC":
@@ -547,7 +620,13 @@ def rand_value(rnd, kind, prev):
         d = pd = rnd.randint(-10 ** 5, 10 ** 5)
     if c is None:
         return {"d": d, "c": {}, "h": False}, pd
+    if rnd.random() < 0.2:
+        # duck-typed pair: a tuple subclass holding a dict subclass
+        return {"d": d, "c": copy.deepcopy(c), "h": True}, PairNT(pd, collections.OrderedDict(c))
     return {"d": d, "c": copy.deepcopy(c), "h": True}, (pd, c)
+
+
+PairNT = collections.namedtuple("PairNT", "data context")
 
 
 class Malformed(Exception):
@@ -573,7 +652,7 @@ def enc_data(kind, got, fills):
         return got
     if t == "Mean":
         n = len(fills)
-        s = sum((Fraction(x) for x in fills), Fraction(0))
+        s = Fraction(n) if kind["inner"] == "Count" else sum((Fraction(x) for x in fills), Fraction(0))
         ok = isinstance(got, float) and n > 0 and got == float(s) / float(n)
         return {"s": to_limbs(s) if kind["inner"] == "DSum" else int(s), "n": n, "rendered": bool(ok)}
     if t == "VMC":
@@ -642,7 +721,10 @@ def enc_observation(kind, obs, fills):
 def record_history(rnd, max_ops=24):
     """One seeded random history on a real element -> (kind, events, python-level script)."""
     kind = rand_kind(rnd)
-    el = build(kind)
+    try:
+        el = build(kind)
+    except Exception as exc:   # noqa
+        raise Abort("construction:raised:" + exc_name(exc), 0, kind, [])
     lab = label(kind)
     events = [{"ev": "new", "kind": kind, "k": lab}]
     fills, prev = [], []
